@@ -42,6 +42,7 @@ def run(ctx):
     rule_c(ctx, cr)
     rule_d(ctx, cr)
     rule_linekinds(ctx, cr)
+    rule_lex_number(ctx, cr)
     rule_e(ctx, cr)
 
 
@@ -124,6 +125,22 @@ def rule_c(ctx, cr):
     lv = [v for v in st["variants"] if v["name"] == "Listing"]
     ctx.check(bool(lv) and "RangeInclusive" in lv[0]["fields"][0]["ty"], "C15.c",
               "State::Listing/type", "", "the LIST state carries an inclusive range")
+
+
+def rule_lex_number(ctx, cr):
+    """the leading line number is taken at full width: parsed into u16 (overflow = not a number)
+    and never narrowed from a wider accumulator before the 65529 test"""
+    f = cr.need_fn("lang::lex::BasicLexer::lex")
+    ctx.touch(f)
+    narrow = [(st["rv"]["from"], st["span"]["line"]) for b, i, st in f.assigns()
+              if st["rv"]["k"] == "cast" and st["rv"]["kind"] == "IntToInt" and st["rv"]["to"] == "u16"
+              and st["rv"]["from"] in ("u32", "u64", "usize", "i32", "i64", "isize", "u128", "i128")]
+    ps = f.calls_matching(r"<impl str>::parse$")
+    ctx.check(not narrow and len(ps) == 1, "C15.d", "lex/line-number-not-narrowed", f.span,
+              "the line-number prefix is parsed straight into 16 bits",
+              "BasicLexer::lex narrows a wider value to u16 (%s) before the range test: a typed "
+              "line number of 65536 or more wraps around and overwrites or deletes another line "
+              "(65546 becomes line 10)" % narrow)
 
 
 def rule_linekinds(ctx, cr):
